@@ -134,6 +134,10 @@ class Unsigned32Type(BaseDataType):
 
             self._data = data
 
+        else:
+            raise DataTypeError("Unsigned32Type MUST have data argument "\
+                                "of 'int' or 'bytes'")
+
 
     def is_bit_set(self, bit):
         if 0 <= bit < 8:
